@@ -46,6 +46,23 @@ type vp11Path struct {
 	closed    bool
 	dropped   int
 	emptyReply bool // refused types / oversized answers come back as an empty reply instead of silence
+	subst, substTo int // the path rewrites every octet equal to subst inside query-name labels into substTo (0 = off)
+	substituted int
+}
+
+// vp11Labels calls f for every label-content octet of the question name in a packed query
+func vp11Labels(wire []byte, f func(i int)) {
+	off := 12
+	for off < len(wire) {
+		l := int(wire[off])
+		if l == 0 || l >= 0xC0 {
+			return
+		}
+		for i := off + 1; i <= off+l && i < len(wire); i++ {
+			f(i)
+		}
+		off += l + 1
+	}
 }
 
 func (p *vp11Path) Close() error                       { p.closed = true; return nil }
@@ -62,6 +79,20 @@ func (p *vp11Path) SendAndReceive(m *mdns.Msg, timeout *time.Duration) (*mdns.Ms
 	wire, err := m.Pack()
 	if err != nil {
 		return nil, 0, err
+	}
+	high := false
+	vp11Labels(wire, func(i int) {
+		if wire[i] >= 0x80 {
+			high = true
+		}
+		if p.subst != 0 && wire[i] == byte(p.subst) {
+			wire[i] = byte(p.substTo)
+			p.substituted++
+		}
+	})
+	if p.drop8bit && high {
+		p.dropped++
+		return nil, 0, vp11Timeout{}
 	}
 	q := &mdns.Msg{}
 	if err := q.Unpack(wire); err != nil || len(q.Question) != 1 {
@@ -133,7 +164,7 @@ var vp11Types = map[int]map[uint16]bool{
 
 func VP_C11_Handshake() {
 	srv := NewServerDnsListener("t.example", &vp11Srv{})
-	path := &vp11Path{srv: srv, caseMode: vp.Param("case"), drop8bit: vp.Param("no8bit") == 1, allowed: vp11Types[vp.Param("types")], limit: vp.Param("limit"), maxExch: 400, emptyReply: vp.Param("empty") == 1}
+	path := &vp11Path{srv: srv, caseMode: vp.Param("case"), drop8bit: vp.Param("no8bit") == 1, allowed: vp11Types[vp.Param("types")], limit: vp.Param("limit"), maxExch: 400, emptyReply: vp.Param("empty") == 1, subst: vp.Param("subst"), substTo: vp.Param("substto")}
 	client, err := NewClientDnsConnection("t.example", path)
 	vp.Assert(err == nil, "client-created")
 	herr := client.Handshake()
@@ -154,7 +185,12 @@ func VP_C11_Handshake() {
 		data[i] = byte(i*29 + 3)
 	}
 	nsym := vp.Param("sym")
-	for i := 0; i < nsym && i < up; i++ {
+	upsym := nsym
+	if vp.Param("symup128") == 1 && client.Serializer.Upstream.Encoder.Name() != "Base128" {
+		upsym = 0 // substitution paths: arbitrary upstream bytes where the 8-bit codec was settled on, the fixed pattern otherwise
+		vp.Reach("fell-back-from-base128")
+	}
+	for i := 0; i < upsym && i < up; i++ {
 		data[i] = vp.Byte("u")
 		data[up-1-i] = vp.Byte("u")
 	}
